@@ -82,3 +82,11 @@ Example C12_scripted_auth_error_is_handed_on :
   C01.w_got (Proxy.run (Proxy.init_state C01.w_cfg C09.w2_pools C09.w2_slots) evs) 0 = bs "-NOAUTH Authentication required." ++ crlf /\
   C01.w_got (Proxy.run (Proxy.init_state C01.w_cfg C09.w2_pools C09.w2_slots) evs) 1 = enc_bulk (bs "A").
 Proof. cbv zeta. split; vm_compute; reflexivity. Qed.
+
+From RcProxy Require Model.ClientCodecFast Proofs.ClientCodecFastProofs.
+(* the cdecode correspondence run of this check evaluates `decode_fast` (Model/ClientCodecFast.v,
+   linear-time readers); it is the decoder model `decode` on every input *)
+Theorem C12_evaluated_decoder_is_the_model : forall limit b,
+  RcProxy.Model.ClientCodecFast.decode_fast limit b = RcProxy.Model.ClientCodec.decode limit b.
+Proof. exact RcProxy.Proofs.ClientCodecFastProofs.decode_fast_eq. Qed.
+Print Assumptions C12_evaluated_decoder_is_the_model.
